@@ -97,6 +97,7 @@ type SZone struct {
 	Expir     time.Time
 	Tag       string            // folded into generated RDATA
 	AOverride map[string]string // owner -> IPv4 for address records planted for other zones' NS hosts
+	NoGlue    map[string]bool   // in-zone NS hosts for which the parent's referral carries no glue
 	NoDS      bool              // signed, but the parent publishes no DS: an island, provably insecure
 	WrongDS   bool              // the parent publishes a DS that matches no key: bogus
 
@@ -211,7 +212,7 @@ func (z *SZone) GlueFor(cut string) []dns.RR {
 	}
 	var out []dns.RR
 	for i, n := range c.NSHosts {
-		if vfmodel.IsSubdomain(n, cut) {
+		if vfmodel.IsSubdomain(n, cut) && !c.NoGlue[n] {
 			out = append(out, &dns.A{Hdr: dns.RR_Header{Name: n, Rrtype: dns.TypeA, Class: dns.ClassINET, Ttl: z.TTLOf(cut, dns.TypeNS)}, A: net.ParseIP(c.Servers[i]).To4()})
 		}
 	}
